@@ -10,8 +10,8 @@ use std::io::Write;
 fn adapter(name: &str, variant: &str) -> Option<Box<dyn Adapter>> {
     let _ = variant;
     Some(match name {
-        "bulkhead" => Box::new(adapters::bulkhead::BulkheadAd::new()),
-        "ratelimiter" => Box::new(adapters::ratelimiter::RateLimiterAd::new()),
+        "bulkhead" => Box::new(adapters::bulkhead::BulkheadAd::new(variant)),
+        "ratelimiter" => Box::new(adapters::ratelimiter::RateLimiterAd::new(variant)),
         "adaptive" => Box::new(adapters::adaptive::AdaptiveAd::new()),
         "retry" => Box::new(adapters::retry::RetryAd::new()),
         "reconnect" => Box::new(adapters::reconnect::ReconnectAd::new()),
